@@ -55,7 +55,7 @@ static inline WOpd wrel(int64_t d, bool hex, int pad = 0) { WOpd o; o.k = K_REL;
 // ---------------- text ----------------
 static inline std::string regtext(const WOpd &o) { x86::Opd r; r.k = o.k; r.reg = o.reg; r.width = o.width; r.high8 = o.high8; return x86::regname(r); }
 static inline std::string numtext(uint64_t v, bool neg, bool hex, int pad) {
-  char b[48];
+  char b[160];
   uint64_t mag = neg ? (uint64_t)(0 - v) : v;
   if (hex) snprintf(b, sizeof b, "%s0x%0*llx", neg ? "-" : "", pad > 0 ? pad : 1, (unsigned long long)mag);
   else snprintf(b, sizeof b, "%s%0*llu", neg ? "-" : "", pad > 0 ? pad : 1, (unsigned long long)mag);
@@ -90,7 +90,16 @@ static inline std::string opdtext(const WOpd &o) {
     default: return regtext(o);
   }
 }
+static inline std::string text_raw(const Intent &it);
+// the written line; zero padding of immediates is cut back until the filtered text (blanks removed except the one behind the mnemonic) fits the
+// library's documented line window of 99 characters
 static inline std::string text(const Intent &it) {
+  std::string s = text_raw(it); size_t flt = 0; bool sp = false; for (char ch : s) { if (ch != ' ') flt++; else if (!sp) { flt++; sp = true; } }
+  if (flt <= 99) return s;
+  Intent j = it; for (auto &o : j.ops) if ((o.k == K_IMM || o.k == K_REL) && o.imm.pad > 20) { size_t over = flt - 99; o.imm.pad = o.imm.pad > (int)over + 20 ? o.imm.pad - (int)over : 20; }
+  return text_raw(j);
+}
+static inline std::string text_raw(const Intent &it) {
   std::string s = it.mn;
   for (size_t k = 0; k < it.ops.size(); k++) {
     s += k ? ", " : " ";
